@@ -8,6 +8,9 @@ import json,sys,re
 sd=sys.argv[1]
 m=json.load(open(sd+'/meta.json'))
 d=m['demo_cmd']; k=sd.rsplit('/',1)[1]
+mm=re.match(r'^(.*?)\s*\(after copying (\S+) to (\S+?)\)?\s*$', d)
+if mm:
+    d=f'cp {mm.group(2)} {mm.group(3)} && {mm.group(1).strip()}'
 d2=d.replace('<out>/'+k+'/demo_test.go.txt', sd+'/demo_test.go.txt')
 if sd+'/demo_test.go.txt' not in d2:
     d2=re.sub(r'(?<![/\w])(out/\d+/)?demo_test\.go\.txt', sd+'/demo_test.go.txt', d2)
